@@ -47,6 +47,7 @@ type tOpt struct {
 	StartQid  uint16
 	SeedQueue int // pre-occupied wire IDs following StartQid (forces the skip loop)
 	WriteFailNth int // >0: the n-th client write over all connections fails
+	RewindQid bool // tdc kinds: every call first rewinds the wire-ID counter to StartQid (a reachable state after 65536 allocations): IDs of queries still in flight must be skipped
 	Withdraw  bool // tdc kinds: a caller may reserve and withdraw instead of exchanging
 	IdleTimeout time.Duration
 }
@@ -495,6 +496,11 @@ func (s *tsys) doCall(ci int, c *call) {
 	if s.tr != nil {
 		r, err = s.tr.ExchangeContext(ctx, c.q)
 	} else {
+		if s.opt.RewindQid {
+			s.dc.queueMu.Lock()
+			s.dc.nextQid = s.opt.StartQid
+			s.dc.queueMu.Unlock()
+		}
 		s.reserving++
 		c.activeMax = s.active
 		c.reservingNow = true
